@@ -724,6 +724,8 @@ func vC04Dns64Relay(out *vC04Out, r *rand.Rand, budget int, scn *vC04RelayScn) i
 				amb = true
 			}
 		}
+		// (the lease of a fresh answer is checked for the same ambiguity below, once it is known
+		// which answers were fetched in this query)
 		if amb {
 			out.emit(map[string]any{"inconclusive": true})
 			continue
@@ -761,9 +763,35 @@ func vC04Dns64Relay(out *vC04Out, r *rand.Rand, budget int, scn *vC04RelayScn) i
 			if s := mk(1, name); s != nil {
 				consulted = append(consulted, s)
 			}
-			if s := mk(2, target); s != nil && p.Alias {
+			// the alias chase (Cache.additionalAnswer) folds the target's answer into the request tree
+			// where its records or its rcode reach the outer answer (`lineage.inherit()`: answer or
+			// authority records, an adopted NXDOMAIN); a bare NOERROR answer at the target contributes
+			// nothing to the reply and is not a piece of it (as in the tree model, Model.v `additional`)
+			if s := mk(2, target); s != nil && p.Alias &&
+				(len(s.msg.Answer) > 0 || len(s.msg.Ns) > 0 || s.msg.Rcode == dns.RcodeNameError) {
 				consulted = append(consulted, s)
 			}
+		}
+		// since 1a0e74f an A-basis reply is capped by the request tree's bound: a lease of a fresh
+		// answer whose whole seconds left differ between the two readings of the bracket cannot be
+		// attributed to one clock reading
+		for _, s := range consulted {
+			if s.fresh != nil && s.fresh.hasCut {
+				l0, l1 := s.fresh.cut-t0, s.fresh.cut-t1
+				if l0 < 0 {
+					l0 = 0
+				}
+				if l1 < 0 {
+					l1 = 0
+				}
+				if l0/int64(time.Second) != l1/int64(time.Second) {
+					amb = true
+				}
+			}
+		}
+		if amb {
+			out.emit(map[string]any{"inconclusive": true})
+			continue
 		}
 		find := func(rr dns.RR) (string, bool) {
 			for _, s := range consulted {
@@ -847,6 +875,34 @@ func vC04Dns64Relay(out *vC04Out, r *rand.Rand, budget int, scn *vC04RelayScn) i
 				}
 			}
 		}
+		// ... and an A-basis reply is composed from every answer consulted: no relayed record outlives
+		// the cached AAAA answer that gated it, any other cached answer of the A chase, or the lease a
+		// fresh one was learned under (the former finding dns64-abasis-gate, repaired by 1a0e74f)
+		if !ptr {
+			for _, rr := range relayed {
+				for _, s := range consulted {
+					var left time.Duration
+					what := ""
+					switch {
+					case s.e != nil:
+						left, what = s.e.remaining(k.real(t0)), "a cached answer the reply was composed from"
+						if s == gate {
+							what = "the cached AAAA answer that gated it"
+						}
+					case s.fresh != nil && s.fresh.hasCut:
+						left, what = time.Duration(s.fresh.cut-t0), "the lease a fresh answer was learned under"
+						if left < 0 {
+							left = 0
+						}
+					default:
+						continue
+					}
+					if time.Duration(rr.Header().Ttl)*time.Second > left && fail == "" {
+						fail = fmt.Sprintf("A-basis reply relays %s with TTL %d while %s has %v left", dns.TypeToString[rr.Header().Rrtype], rr.Header().Ttl, what, left)
+					}
+				}
+			}
+		}
 		mode, kk := 0, fmt.Sprintf("dns64-basis-route%d", route)
 		if ptr {
 			mode, kk = 2, fmt.Sprintf("dns64-ptr-route%d", route)
@@ -880,17 +936,18 @@ func vC04Dns64Relay(out *vC04Out, r *rand.Rand, budget int, scn *vC04RelayScn) i
 			"desc": map[string]any{"route": route, "reply": resp.String(), "went_downstream": env.stub.calls}})
 		emitted++
 		// the gating AAAA answer contributes no record to an A-basis reply; whether the reply is
-		// inside ITS lifetime is judged by a twin case of its own (mode 1: that clause alone)
+		// inside ITS lifetime is also judged by a twin case of its own (mode 1: that clause alone).
+		// Until 1a0e74f these twins carried the fkey of finding dns64-abasis-gate; they are strict
+		// regression cases now.
 		if gate != nil && gate.e != nil {
 			left := gate.e.remaining(k.real(t0))
-			gfail, fkey := "", ""
+			gfail := ""
 			for _, rr := range relayed {
 				if time.Duration(rr.Header().Ttl)*time.Second > left {
 					gfail = fmt.Sprintf("A-basis reply relays %s with TTL %d while the cached AAAA answer that gated it has %v left", dns.TypeToString[rr.Header().Rrtype], rr.Header().Ttl, left)
-					fkey = "dns64-abasis-gate"
 				}
 			}
-			out.emit(map[string]any{"k": kk + "-gateclause", "nontrivial": true, "go_fail": gfail, "fkey": fkey, "coq": fmt.Sprintf("CDns64Relay 1 %s", body),
+			out.emit(map[string]any{"k": kk + "-gateclause", "nontrivial": true, "go_fail": gfail, "coq": fmt.Sprintf("CDns64Relay 1 %s", body),
 				"desc": map[string]any{"route": route, "reply": resp.String(), "went_downstream": env.stub.calls}})
 			emitted++
 		}
